@@ -84,7 +84,8 @@ def run(tier: str) -> int:
                "non-vacuity: step size 1/(count+1)")
     traces, meta = [], []
     rewards = [Fraction(0), Fraction(1, 4), Fraction(1, 2), Fraction(3, 4), Fraction(1), Fraction(-1, 2)]
-    alphas = [None, Fraction(1, 4), Fraction(1, 2), Fraction(1), Fraction(1, 8)]
+    # (a learning rate of exactly 0 - a frozen agent - and one above 1 are constant rates like any other; only -1 is the sentinel)
+    alphas = [None, Fraction(1, 4), Fraction(1, 2), Fraction(1), Fraction(1, 8), Fraction(0), Fraction(2)]
     n_tr = 400 if tier == "quick" else 6000
     with quiet():
         for i in range(n_tr):
@@ -94,7 +95,7 @@ def run(tier: str) -> int:
             q0 = rng.choice([Fraction(0), Fraction(1, 2), Fraction(-1, 4), Fraction(2)])
             depth = rng.randint(3, 12)
             # (32-bit integers in TLC: bound the number of learn steps so that exact denominators stay small)
-            max_learn = {None: 6, Fraction(1, 8): 3, Fraction(1, 4): 5, Fraction(1, 2): 9, Fraction(1): 9}[alpha]
+            max_learn = {None: 6, Fraction(1, 8): 3, Fraction(1, 4): 5, Fraction(1, 2): 9, Fraction(1): 9, Fraction(0): 9, Fraction(2): 6}[alpha]
             steps, cur = [], Fraction(8)
             for _ in range(depth):
                 k = rng.random()
